@@ -26,7 +26,7 @@ ASSUMPTIONS = [
     "the region is a function of (n+, n-, N) only (checked on re-arranged/re-spelled realisations of sampled triples)",
     "thresholds decided in exact rationals: 1/4, 7/20",
 ]
-REQUIRED = {"all": ["salted_objects", "region:1", "region:2", "region:3", "region:4", "region:5", "on_boundary:FCR=1/4",
+REQUIRED = {"all": ["salted_objects", "objects_by_other_routes", "objects_built_from_files", "region:1", "region:2", "region:3", "region:4", "region:5", "on_boundary:FCR=1/4",
                     "on_boundary:FCR=7/20", "on_boundary:|NCPR|=7/20", "after_other_queries", "whitespace_presentations"]}
 NMAX = {"quick": 60, "thorough": 140}
 Q = Fraction(1, 4)
@@ -115,6 +115,9 @@ def judge(case, rep, S):
         if (a + 2 * b + j) % 9 == 0:
             obj = S["SP"](SALT.present(rng, seq))           # typed with blanks / line breaks / lower case
             rep.cnt("whitespace_presentations")
+        elif (a + b + j) % 3 == 1 and N <= 300:
+            obj = SALT.make_object(S, seq, rng, rep)        # from a file, a pickle, a copy, typed text, a backend object
+            rep.cnt("objects_by_other_routes")
         else:
             obj = S["SP"](seq)
         if (a + b + j) % 4 == 0:
